@@ -694,6 +694,62 @@ Fixpoint run_ops (kw : bool) (r : record) (ops : list op) : record * list outcom
 Definition blank (kw : bool) (ts : list ftype) : record :=
   map (fun t => (t, if kw then SNone else default t)) ts.
 
+(* ---- several records of one type, and in-place mutation of the values they hold ----
+   Python lists and digests are mutable: `a.tags.append(x)`, `a.tags += [x]`, `a.digest.md5 = h` change the object a
+   slot holds without going through Record.__setattr__.  The model keeps every record's values to itself: the
+   constructor is a function of its arguments only (a slot that gets no value holds a NEW default(T)), so nothing
+   done to one record shows in another.  (Record._replace hands the untouched values of the source on to the copy
+   as the same objects; the histories of the correspondence do not mutate a value after it has been handed on.) *)
+Definition world := list record.
+
+Definition mutate_val (s : sval) (x : pv) : sval :=
+  match s with
+  | SList l => SList (l ++ [SPass x])                 (* list.append / += [x]: no conversion *)
+  | SDigest m b c =>                                  (* digest.md5 = x: the setter's own check *)
+      match digest_field (fst (fst (f_digest_len F))) x with Ok m' => SDigest m' b c | Raise _ => s end
+  | _ => s
+  end.
+
+Fixpoint mutate (r : record) (i : nat) (x : pv) : record :=
+  match r, i with
+  | [], _ => []
+  | (t, s) :: r', O => (t, mutate_val s x) :: r'
+  | sl :: r', S i' => sl :: mutate r' i' x
+  end.
+
+Definition set_nth {A} (l : list A) (j : nat) (a : A) : list A := firstn j l ++ a :: skipn (S j) l.
+
+Inductive wop :=
+| WNew (args : list pv)                      (* D(args): one more record of the type *)
+| WMutate (j i : nat) (x : pv)               (* in-place mutation of the value in slot i of record j *)
+| WOp (j : nat) (o : op)                     (* an operation of section 5 on record j (its result takes j's place) *)
+| WReplaceNew (j : nat) (kvs : list (nat * pv)).   (* records[j]._replace(kvs) as one more record *)
+
+Definition wstep (kw : bool) (ts : list ftype) (w : world) (o : wop) : world * outcome :=
+  match o with
+  | WNew args =>
+      match construct kw ts args with Ok r => (w ++ [r], Accepted) | Raise e => (w, Raised e) end
+  | WMutate j i x =>
+      match nth_error w j with Some r => (set_nth w j (mutate r i x), Accepted) | None => (w, Raised EAttributeError) end
+  | WOp j o =>
+      match nth_error w j with
+      | Some r => let (r', oc) := step kw r o in (set_nth w j r', oc)
+      | None => (w, Raised EAttributeError)
+      end
+  | WReplaceNew j kvs =>
+      match nth_error w j with
+      | Some r => match replace kw r kvs with Ok r' => (w ++ [r'], Accepted) | Raise e => (w, Raised e) end
+      | None => (w, Raised EAttributeError)
+      end
+  end.
+
+(* the record(s) an operation works on *)
+Definition targets (o : wop) (k : nat) : bool :=
+  match o with
+  | WNew _ | WReplaceNew _ _ => false
+  | WMutate j _ _ | WOp j _ => Nat.eqb j k
+  end.
+
 End WithFacts.
 
 (* ------------------------------------------------------------------------------------------ *)
